@@ -48,6 +48,7 @@ def units(tier):
     us += [("g", si, c) for si in (2, 8, 14, 15) for c in codecs]
     us += [("h", c) for c in codecs]
     us += [("i", c) for c in codecs]
+    us += [("k", c) for c in codecs]
     us += [("c", os.path.basename(f)) for f in sorted(glob.glob(os.path.join(REPO, "tests", "avro-files", "*.avro")))]
     us += [("d", first) for first in range(6)]
     return us
@@ -247,6 +248,45 @@ def part_i(res, fa, codec, seen):
             res.add(Violation("c05.i", "header-schema", f"header schema is not this file's schema | {short(info, 300)}", info))
 
 
+def part_k(res, fa, codec, seen):
+    """A codec argument in another spelling (letter case, padding): the writer may refuse it; if it accepts it, the file is a
+    container file like any other - an independent parser recovers the records and the header names a codec the format defines."""
+    S = {"type": "record", "name": "Rk", "fields": [{"name": "a", "type": "long"}, {"name": "s", "type": "string"}]}
+    recs = [{"a": 1, "s": "x"}, {"a": -8192, "s": "é" * 40}]
+    node, defs = names.resolve(S)
+    exp = cont.expected(node, defs, recs)
+    for spelled in (codec.capitalize(), codec.upper(), codec.title(), " " + codec, codec + " ", codec + "\n"):
+        if spelled == codec:
+            continue
+        info = {"part": "k", "schema": S, "records": recs, "codec": spelled}
+        note_case(info)
+        res.evals += 1
+        for how in ("writer", "Writer"):
+            fo = io.BytesIO()
+            try:
+                if how == "writer":
+                    fa.writer(fo, copy.deepcopy(S), copy.deepcopy(recs), codec=spelled, sync_marker=cont.sync_marker())
+                else:
+                    from fastavro._write_py import Writer
+
+                    w = Writer(fo, copy.deepcopy(S), codec=spelled, sync_marker=cont.sync_marker())
+                    for r in recs:
+                        w.write(copy.deepcopy(r))
+                    w.flush()
+            except Exception:
+                continue  # refused
+            data = fo.getvalue()
+            seen.add(data)
+            try:
+                p = container.parse(data)
+                got, _ = container.records(p)
+            except Exception as e:
+                res.add(Violation("c05.k", f"independent-parse-failed:{type(e).__name__}:codec-spelling", f"{how} accepted codec={spelled!r}; an independent parser rejects the file: {e}", info))
+                continue
+            if len(got) != len(exp) or not all(same(a, b) for a, b in zip(got, exp)):
+                res.add(Violation("c05.k", "independent-records-differ:codec-spelling", f"{how} accepted codec={spelled!r}; independent parser recovers {short(got, 200)}", info))
+
+
 def part_h(res, fa, codec, seen):
     """Files written through the Writer class while some records are refused (non-conforming
     records raise part-way or are rejected by validation): the independent parser must find
@@ -386,6 +426,25 @@ def part_b(res, fa, si, codec, tier, seen):
         if codec == "null":
             entry_sets.append([("avro.schema", schema_json)])
             entry_sets.append([("a", b""), ("avro.schema", schema_json)])
+        # the same codec as other conforming writers produce it (compression level, strategy, dictionary size, integrity check)
+        for vname, fn in container.compress_variants(codec).items():
+            if fn is None:
+                continue
+            data = container.write(entry_sets[0], [(len(entry_sets[0]), False)], marker, codec, [(len(recs), b"".join(enc))] if recs else [], compressor=fn)
+            if data in seen:
+                continue
+            seen.add(data)
+            info = {"part": "b", "schema": raw, "records": recs, "codec": codec, "compressor": vname, "blocks": [len(recs)]}
+            note_case(info)
+            res.evals += 1
+            for ctor in ("reader", "block_reader"):
+                try:
+                    got = list(fa.reader(io.BytesIO(data))) if ctor == "reader" else [r for b in fa.block_reader(io.BytesIO(data)) for r in b]
+                except Exception as e:
+                    res.add(Violation("c05.b.reader", f"reader-raised:{type(e).__name__}:compressor-variant", f"{ctor} raised {type(e).__name__}: {e} on a {codec} file compressed as {vname} | {short(info, 400)}", info))
+                    continue
+                if len(got) != len(exp) or not all(same(a, b) for a, b in zip(got, exp)):
+                    res.add(Violation("c05.b.reader", "reader-records-differ:compressor-variant", f"{ctor} returns {short(got, 200)} expected {short(exp, 200)} | {short(info, 400)}", info))
         for entries in entry_sets:
             for chunks in binary.all_layouts(len(entries)):
                 for part in block_partitions(len(recs)):
@@ -481,6 +540,8 @@ def run_unit(unit, tier):
         part_h(res, fa, unit[1], seen)
     elif unit[0] == "i":
         part_i(res, fa, unit[1], seen)
+    elif unit[0] == "k":
+        part_k(res, fa, unit[1], seen)
     elif unit[0] == "c":
         part_c(res, fa, unit[1], seen)
     elif unit[0] == "d":
@@ -507,6 +568,9 @@ def replay(case):
         return res.violations
     elif part == "i":
         part_i(res, fa, case["codec"], set())
+        return res.violations
+    elif part == "k":
+        part_k(res, fa, case["codec"].strip().lower(), set())
         return res.violations
     elif part == "g":
         si = [i for i, (n, r) in enumerate(cont.top_schemas()) if r == case["schema"]][0]
